@@ -25,6 +25,10 @@ META = {
                 text="transform(fit matrix) = scores is discharged for EOF/ComplexEOF, the CPCCA family core and the EOF rotators (all powers, unsorted and sorted state); the preprocessing plumbing, SparsePCA, POP, cross-set rotators (all alpha, PCA on/off) and multi.CCA are evaluated on real models: values, dims, sample labels, mode order and sign.",
                 note="assumed: callee contracts as in C01/C09/C11; Preprocessor.transform(X_fit) = fitted matrix is bounded here; reals for floats; bounded: 70 (quick) / ~110 (thorough) real models",
                 ref="5/C04"),
+    "C15": dict(level="proof", technique="contract-based deductive verification: real Decomposer.fit / _SVD.fit_transform traced on symbolic n_modes fraction, init_rank_reduction, solver string and seed with library back ends as contract stubs; z3 (LIA/LRA, quantified count lemma by induction, strings); bounded real runs as labelled stand-in",
+                text="fractional n_modes keeps the smallest sufficient number of precomputed modes (else all, with the warning), n_modes_precompute in [1,rank], every solver string either selects the documented back end or is refused before any work, every randomised back end receives the instance's seed and n_modes_precompute, solver_kwargs reach the back end unchanged through Decomposer, _SVD, SVD and PCA, and both sign functions make a largest-magnitude entry non-negative: discharged for all inputs. Accuracy of randomised solvers (with a spectral gap), bit-identity per seed and acceptance of solver_kwargs by every model class are bounded runs.",
+                note="assumed: cumulative sums of non-negative variances are monotone; randomised back ends deterministic in the seed and exact; xr.concat/idxmax/where semantics on one column; integers mathematical, floats real; bounded: 106 (quick) / ~330 (thorough) real runs",
+                ref="5/C15"),
 }
 NA_REASON = "no check registered yet in this snapshot of /verif (build in progress; see DESIGN.md section 5 for the plan)"
 
